@@ -917,7 +917,7 @@ def r_reply_forms(ctx: Ctx, rule: str):
             none_tests = {t_: none_edge(t_) for t_ in ctx.nodes(f, lambda m: m.op == "test") if none_edge(t_) is not None}
             ok_writes = []
             for m in all_writes:
-                if m in writes or ast.unparse(m.ast.args[0]).replace(" ", "") not in ("CMD_OK.decode()", "'ok'", '"ok"'):
+                if m in writes or not is_ok_text(ctx, m.func, m.ast.args[0]):
                     continue
                 if any(m not in reach(starts_, lambda a, b, lab, t_=t_, lb=lb: not (a is t_ and lab[0] == lb)) and m in reach(starts_) for t_, lb in none_tests.items()):
                     ok_writes.append(m)
@@ -945,6 +945,21 @@ def r_reply_forms(ctx: Ctx, rule: str):
             direct += 1
             rep.ob(rule + "r", "every pool member is invoked through return_or_exception (so that an exception it raises becomes the reply)", False, node=u)
     rep.floor(rule + "r", "invocations of pool members (through return_or_exception or direct)", n + direct, 3)
+
+
+def is_ok_text(ctx: Optional[Ctx], fr: Optional[FuncInfo], x: ast.AST, _depth: int = 0) -> bool:
+    """the expression is the OK reply: `CMD_OK.decode()`, the literal 'ok', or a module-level / local name bound once to one of these"""
+    t = ast.unparse(x).replace(" ", "")
+    if t in ("CMD_OK.decode()", "'ok'", '"ok"', "CMD_OK.decode('utf-8')", "str(CMD_OK,'utf-8')"):
+        return True
+    if ctx is not None and fr is not None and isinstance(x, ast.Name) and _depth < 3:
+        v = ctx.vals.resolve(fr, x)
+        if v is not x:
+            return is_ok_text(ctx, fr, v, _depth + 1)
+        mv = ctx.vals.module_value(fr, x)
+        if mv is not None:
+            return is_ok_text(ctx, fr, mv, _depth + 1)
+    return False
 
 
 def reply_form(arg: ast.AST, var: Optional[str], aw: Optional[ast.AST], ctx: Optional[Ctx] = None, at: Optional[Node] = None, denotes=None) -> str:
@@ -990,8 +1005,7 @@ def reply_form(arg: ast.AST, var: Optional[str], aw: Optional[ast.AST], ctx: Opt
         return isinstance(x, ast.Call) and isinstance(x.func, ast.Name) and x.func.id == "str" and len(x.args) == 1 and is_val(x.args[0])
 
     def is_ok(x: ast.AST) -> bool:
-        t = ast.unparse(x).replace(" ", "")
-        return t in ("CMD_OK.decode()", "'ok'", '"ok"')
+        return is_ok_text(ctx, at.func if at is not None else None, x)
 
     if is_str_of_val(arg):
         return "str"
@@ -1622,3 +1636,71 @@ def r_annotation_kinds(ctx: Ctx, rule: str):
         ok = not affected or resolves
         rep.ob(rule, "`annotation is bool` can recognise bool parameters", True if ok else False, func=afa, construct=t,
                detail="" if ok else "with string annotations `'bool' is bool` is False: flags would be registered as value options")
+
+
+def r_ok_constant(ctx: Ctx, rule: str) -> None:
+    """The reply for a call that returned None is the text 'ok': the constant the session writes (CMD_OK) is bound once, to b"ok", and
+    every module that uses it imports that very constant."""
+    rep = ctx.rep
+    rep.rule(rule, "OK-CONSTANT: CMD_OK is the bytes literal b'ok', bound exactly once in internals.constants, and the session's CMD_OK is that constant")
+    mods = [m for m in ctx.prog.modules.values() if m.name.endswith("internals.constants") or m.name == "internals.constants"]
+    if not mods:
+        raise AnalysisError("anchor: internals.constants missing")
+    m = mods[0]
+    v = m.assigns.get("CMD_OK")
+    n_bind = sum(1 for x in ast.walk(m.tree) if isinstance(x, ast.Name) and x.id == "CMD_OK" and not isinstance(x.ctx, ast.Load))
+    rep.ob(rule, "CMD_OK is b'ok'", isinstance(v, ast.Constant) and v.value == b"ok" and n_bind == 1, construct="internals.constants: CMD_OK",
+           detail=(ast.unparse(v) if v is not None else "(not assigned)") + f", bound {n_bind} time(s)")
+    # nobody re-binds it from outside, and the session does not shadow it
+    others = []
+    for m2 in ctx.prog.modules.values():
+        for x in ast.walk(m2.tree):
+            if m2 is not m and isinstance(x, ast.Name) and x.id == "CMD_OK" and not isinstance(x.ctx, ast.Load):
+                others.append(f"{m2.relpath}:{x.lineno}")
+            if isinstance(x, ast.Attribute) and x.attr == "CMD_OK" and not isinstance(x.ctx, ast.Load):
+                others.append(f"{m2.relpath}:{x.lineno}")
+    rep.ob(rule, "CMD_OK is not re-bound or shadowed anywhere else in the package", not others, construct="CMD_OK", detail=", ".join(others))
+    sess_mod = [m2 for m2 in ctx.prog.modules.values() if m2.name == SESSION_MOD]
+    imp = sess_mod[0].imports.get("CMD_OK") if sess_mod else None
+    rep.ob(rule, "the session's CMD_OK is the constant of internals.constants", imp is not None and imp.endswith("internals.constants.CMD_OK"), construct="control.session: CMD_OK",
+           detail=str(imp))
+
+
+def r_omitted_params(ctx: Ctx, rule: str) -> None:
+    """The one parameter the session fills in itself (`self` <- the pool) is the one parameter the parser leaves out of a command's
+    arguments - no more, no less: an extra `self` argument would be demanded from the client and then passed twice."""
+    rep = ctx.rep
+    cp, sess = anchors(ctx)
+    rep.rule(rule, "OMIT-SELF: add_function_command / add_function_args omit exactly the parameter named 'self' by default, add_class_commands does not override "
+                   "that, and _exec_method_and_respond supplies the pool for exactly that name")
+    V = ctx.vals
+
+    def names_of(f: FuncInfo, d: Optional[ast.AST]) -> Optional[Set[str]]:
+        if d is None:
+            return None
+        if isinstance(d, ast.Name):
+            mv = V.module_value(f, d)
+            d = mv if mv is not None else d
+        if isinstance(d, (ast.Tuple, ast.List, ast.Set)) and all(isinstance(x, ast.Constant) and isinstance(x.value, str) for x in d.elts):
+            return {x.value for x in d.elts}
+        if isinstance(d, ast.Call) and isinstance(d.func, ast.Name) and d.func.id in ("frozenset", "set", "tuple", "list") and len(d.args) == 1:
+            return names_of(f, d.args[0])
+        return None
+
+    for nm, pname in (("add_function_command", "omit_params"), ("add_function_args", "omit")):
+        f = cp.methods.get(nm)
+        if f is None:
+            raise AnalysisError(f"anchor: ControlParser.{nm} missing")
+        got = names_of(f, f.param_default(pname)) if pname in f.param_names() else None
+        rep.ob(rule, f"{nm} leaves out exactly the parameter named 'self' by default", got == {"self"}, func=f, construct=f"{nm}: default of `{pname}`",
+               detail=str(sorted(got)) if got is not None else "default not understood")
+    acc = cp.methods.get("add_class_commands")
+    for c in ctx.distinct_sites(ctx.nodes(acc, lambda n: ctx.is_call_to(n, "add_function_command"))) if acc is not None else []:
+        call_ = ctx.an.partial_syn.get((id(c.ast), id(c.env)), c.ast)
+        over = ctx.call_arg(call_, c.callee.targets[0], "omit_params")
+        rep.ob(rule, "add_class_commands keeps the default set of omitted parameters", over is None or names_of(c.func, over) == {"self"}, node=c)
+    f = sess.methods.get("_exec_method_and_respond")
+    tests = [t for t in ctx.nodes(f, lambda n: n.op == "test") if re.fullmatch(r"\w+\.name=='(\w+)'|'(\w+)'==\w+\.name", ast.unparse(t.ast).replace(" ", "").replace('"', "'"))]
+    names = {m.group(1) or m.group(2) for t in tests for m in [re.fullmatch(r"\w+\.name=='(\w+)'|'(\w+)'==\w+\.name", ast.unparse(t.ast).replace(" ", "").replace('"', "'"))] if m}
+    rep.ob(rule, "the session supplies the pool for the parameter named 'self' (the name the parser omits)", names == {"self"}, func=f,
+           construct=tests[0] if tests else "(no test of the parameter name)", detail=str(sorted(names)))
